@@ -259,8 +259,9 @@ theorem intro_missing {EF} (decTT : Serde.Dec (Option Codes.TokenType)) (rg : In
 def readsField (f body : String) : Bool :=
   body == "self." ++ f || body == "self." ++ f ++ ".as_ref()" || body == "self." ++ f ++ ".as_deref()" ||
   body == "self." ++ f ++ ".clone()" || body == "self." ++ f ++ ".as_ref().map(|it|it.as_str())" ||
-  -- whole seconds as a Duration
-  body == "self." ++ f ++ ".map(Duration::from_secs)" || body == "Duration::from_secs(self." ++ f ++ ")"
+  -- whole seconds as a Duration (the translator writes `x.map(F)`, `match x {Some(v) => Some(F(v)), None => None}` and
+  -- `let v = x?; Some(F(v))` alike as `x.map(|it|F(it))`)
+  body == "self." ++ f ++ ".map(|it|Duration::from_secs(it))" || body == "Duration::from_secs(self." ++ f ++ ")"
 
 /-- the accessor `name` of the named struct returns (a view of) the field `field` -/
 def accessorReads (st name field : String) : Bool :=
@@ -287,7 +288,7 @@ theorem err_accessors :
 def settersOk (st : String) : Bool :=
   match structNamed st with
   | some s => s.setters.all fun x =>
-      x.name == "set_" ++ x.field && (x.value == "p0" || x.value == "p0.map(Duration::as_secs)" || x.value == "p0.map(|it|it.as_secs())")
+      x.name == "set_" ++ x.field && (x.value == "p0" || x.value == "p0.map(|it|Duration::as_secs(it))" || x.value == "p0.map(|it|it.as_secs())")
   | none => false
 
 theorem token_setters : settersOk "StandardTokenResponse" = true := by decide
